@@ -520,10 +520,14 @@ void ClipperOffset::DoGroupOffset(Group& group)
 			continue;
 		} // end of offsetting a single point
 
+		// a two-point 'joined' path is offset as an open path with round or square
+		// ends, every other path of the group with the end type of the group
 		if ((pathLen == 2) && (group.end_type == EndType::Joined))
 			end_type_ = (group.join_type == JoinType::Round) ?
 			  EndType::Round :
 			  EndType::Square;
+		else
+			end_type_ = group.end_type;
 
 		BuildNormals(*path_in_it);
 		if (end_type_ == EndType::Polygon) OffsetPolygon(group, *path_in_it);
